@@ -187,6 +187,20 @@ func (h *c17host) serve(conn net.Conn) {
 			case "stallMidExchange":
 				h.hold(conn)
 				return
+			case "busyMidExchange":
+				// never answers, but keeps the connection busy with keep-alives, so that no single read times out
+				go io.Copy(io.Discard, conn)
+				for k := uint32(1); ; k++ {
+					select {
+					case <-h.stop:
+						return
+					case <-time.After(100 * time.Millisecond):
+					}
+					if _, err := conn.Write(c17frame(uint16(llrp.MsgKeepAlive), k, nil)); err != nil {
+						<-h.stop
+						return
+					}
+				}
 			case "closeMidExchange":
 				return
 			case "configRefused":
@@ -217,6 +231,12 @@ func (h *c17host) serve(conn net.Conn) {
 			}
 			conn.Write(c17frame(uint16(llrp.MsgGetReaderCapabilitiesResponse), mid, c17payload(resp)))
 		case llrp.MsgCloseConnection:
+			if h.beh == "byeRefused" {
+				// the host refuses to close and keeps the connection: the probe must still end
+				conn.Write(c17frame(uint16(llrp.MsgCloseConnectionResponse), mid, c17payload(&llrp.CloseConnectionResponse{LLRPStatus: llrp.LLRPStatus{Status: llrp.StatusMsgFieldError}})))
+				h.hold(conn)
+				return
+			}
 			conn.Write(c17frame(uint16(llrp.MsgCloseConnectionResponse), mid, c17payload(&llrp.CloseConnectionResponse{})))
 			return
 		default:
@@ -404,7 +424,7 @@ func TestVerifC17(t *testing.T) {
 	id := c17ident{true, 0, []byte{1, 2, 3}}
 	nocaps := c17caps{}
 	behaviours := []string{"refuse", "closeAfterAccept", "acceptSilent", "stallPartialHello", "garbage", "helloRefused", "helloWrongType",
-		"stallMidHandshake", "garbageMidHandshake", "stallMidExchange", "closeMidExchange", "configRefused", "stallCaps", "capsRefused", "correct"}
+		"stallMidHandshake", "garbageMidHandshake", "stallMidExchange", "closeMidExchange", "configRefused", "stallCaps", "capsRefused", "byeRefused", "correct"}
 	if thorough {
 		// peer closes during version negotiation: with a client without timeout this is the Connect hang that belongs to
 		// property C09 (pkg/llrp/reader.go, repaired elsewhere); the probing client has a timeout once C17's repair is in
@@ -448,6 +468,16 @@ func TestVerifC17(t *testing.T) {
 			h.close()
 		}
 	}
+	if thorough {
+		// a host that keeps the connection busy: bounded by the exchange's own deadline (sendTimeout), not by the probe timeout
+		h, err := c17start("busyMidExchange", id, nocaps)
+		if err != nil {
+			t.Fatal(err)
+		}
+		r := c17probe(h.port, probeT, sendTimeout+10*time.Second)
+		h.close()
+		o.line("probe-busy-check "+r.elapsed, "accept")
+	}
 
 	// ---- 3. skip rule: registered-device sets through the mock SDK, real autoDiscover on 127.0.0.1/32
 	type scase struct {
@@ -470,6 +500,25 @@ func TestVerifC17(t *testing.T) {
 		}},
 		{"down-among-others", true, false, func(p string) []models.Device {
 			return []models.Device{dev("a", "10.0.0.1", p, models.Up), dev("LLRP-known", "127.0.0.1", p, models.Down)}
+		}},
+		// "registered and operating" is about the operating state alone: the administrative state does not matter
+		{"up-locked", true, true, func(p string) []models.Device {
+			d := dev("LLRP-known", "127.0.0.1", p, models.Up)
+			d.AdminState = models.Locked
+			return []models.Device{d}
+		}},
+		{"up-unlocked", true, true, func(p string) []models.Device {
+			d := dev("LLRP-known", "127.0.0.1", p, models.Up)
+			d.AdminState = models.Unlocked
+			return []models.Device{d}
+		}},
+		{"down-locked", true, false, func(p string) []models.Device {
+			d := dev("LLRP-known", "127.0.0.1", p, models.Down)
+			d.AdminState = models.Locked
+			return []models.Device{d}
+		}},
+		{"unknown-state", true, false, func(p string) []models.Device {
+			return []models.Device{dev("LLRP-known", "127.0.0.1", p, models.OperatingState("UNKNOWN"))}
 		}},
 	}
 	for _, sc := range scases {
